@@ -107,7 +107,7 @@ SEGMENTS = {
         file="src/dev/cache.rs", fn="commit_header", start="FULL",
         sig="pub(crate) fn seg_h0<F>(&self, h: &mut Qcow2Header, rollback: F) -> Qcow2Result<()> where F: FnOnce(&mut Qcow2Header)",
         await_calls=["call_write"], await_calls_opt=["call_read"],
-        rewrites=[(r"self\.k_call_write\(", "self.k_call_write_q(")],
+        rewrites=[(r"self\.k_call_write\(", "self.k_call_write_q("), (r"self\.k_call_read\(", "self.k_call_read_q(", 0)],
     ),
     # ---- refcount-table growth: the argument list handed to RefTable::clone_and_grow
     "G0": dict(
